@@ -22,7 +22,7 @@ def parallelBatched (G : Bytes → Bytes) (psize : Nat) (F : Bytes → Bytes) (b
     else parallelBlocks F bs (input.length + 1) input
 
 /-- `chunks` does not depend on spare fuel -/
-theorem chunks_fuel (bs : Nat) (hbs : 0 < bs) (f f' : Nat) (b : Bytes) (h : b.length < (f + 1) * bs) (h' : b.length < (f' + 1) * bs) :
+theorem chunks_spare_fuel (bs : Nat) (hbs : 0 < bs) (f f' : Nat) (b : Bytes) (h : b.length < (f + 1) * bs) (h' : b.length < (f' + 1) * bs) :
     chunks bs f b = chunks bs f' b := by
   induction f generalizing f' b with
   | zero =>
@@ -52,7 +52,7 @@ theorem ecb_cons (F : Bytes → Bytes) (bs : Nat) (hbs : 0 < bs) (a : Bytes) (h 
   have hc : chunks bs (a.length + 1) a = a.take bs :: chunks bs a.length (a.drop bs) := by
     simp only [chunks, h2, hne, or_self, if_false]
   have hf : chunks bs a.length (a.drop bs) = chunks bs ((a.drop bs).length + 1) (a.drop bs) := by
-    apply chunks_fuel bs hbs
+    apply chunks_spare_fuel bs hbs
     · rw [List.length_drop, Nat.succ_mul]
       have : a.length ≤ a.length * bs := Nat.le_mul_of_pos_right _ hbs
       omega
